@@ -11,7 +11,7 @@ git checkout -q -- . && git clean -fdq
 git apply $sd/patch.diff || { echo "RESULT $sd apply-failed"; exit 1; }
 go build ./... >/tmp/seedverify/build.$$ 2>&1 || { echo "RESULT $sd build-failed"; git checkout -q -- .; exit 1; }
 cp $demo $pkgdir/zz_seed_demo_test.go
-go test -vet=off -count=1 -timeout 15m -run "${VS_DEMO_RUN:-TestSeed}" ./$pkgdir > /tmp/seedverify/demo_with.$$ 2>&1; with=$?
+go test -vet=off -count=1 -timeout 15m -run "${VS_DEMO_RUN:-TestZZSeed|TestSeed}" ./$pkgdir > /tmp/seedverify/demo_with.$$ 2>&1; with=$?
 rm -f $pkgdir/zz_seed_demo_test.go
 existing=0
 for p in "$@"; do
@@ -26,7 +26,7 @@ for p in "$@"; do
 done
 git checkout -q -- . && git clean -fdq
 cp $demo $pkgdir/zz_seed_demo_test.go
-go test -vet=off -count=1 -timeout 15m -run "${VS_DEMO_RUN:-TestSeed}" ./$pkgdir > /tmp/seedverify/demo_without.$$ 2>&1; without=$?
+go test -vet=off -count=1 -timeout 15m -run "${VS_DEMO_RUN:-TestZZSeed|TestSeed}" ./$pkgdir > /tmp/seedverify/demo_without.$$ 2>&1; without=$?
 rm -f $pkgdir/zz_seed_demo_test.go
 git checkout -q -- . && git clean -fdq
 echo "RESULT $sd demo_with_change_exit=$with (want !=0) existing_tests_exit=$existing (want 0) demo_pristine_exit=$without (want 0)"
